@@ -13,7 +13,7 @@ cargo nextest run --workspace --no-fail-fast --tool-config-file pb:/w/lib/nextes
 python3 - <<PY
 import json,xml.etree.ElementTree as ET
 base=json.load(open('/root/.vp/BASELINE.json'))
-root=ET.parse('$CARGO_TARGET_DIR/nextest/pb/junit.xml').getroot()
+root=ET.parse('$W/target/nextest/pb/junit.xml').getroot()
 passed=set()
 for tc in root.iter('testcase'):
     tid=(tc.get('classname') or '')+'::'+(tc.get('name') or '')
